@@ -23,6 +23,18 @@ def refix(text, ours):
         t = re.sub(r"return _await_value\((.*)\)", r"return \1", t)
         if "async def __anext__" not in t and "async def __anext__" in ours and "def __anext__" not in t:
             pass
+    if "async with ScopedIter(iterable) as iterator:" in ours and "async with ScopedIter(iterable) as iterator:" not in t:
+        # repo fix 0b95e79: any_iter scopes its async source
+        def scope(m):
+            ind, body = m.group(1), m.group(2)
+            body = "".join("    " + line if line.strip() else line for line in body.splitlines(True))
+            return (f"{ind}async with ScopedIter(iterable) as iterator:\n{ind}    async for item in iterator:\n" + body)
+        t = re.sub(r"^( +)async for item in iterable:\n((?:\1 +.*\n)+)", scope, t, count=1, flags=re.M)
+    if "from ._core import aiter, ScopedIter" in ours:
+        t = re.sub(r"^from \._core import (?!.*ScopedIter)(.*)$", r"from ._core import \1, ScopedIter", t, flags=re.M)
+    if "del peer_buffer, item" in ours:
+        # repo fix 8feff75: the fetching tee peer drops its own reference to the item
+        t = re.sub(r"del peer_buffer\n", "del peer_buffer, item\n", t)
     if "is not sentinel and value != sentinel" in ours:
         t = re.sub(r"\b(value) != ((?:self\._)?sentinel)\b", r"\1 is not \2 and \1 != \2", t)
     return t
@@ -43,6 +55,10 @@ for patch in sys.argv[1:]:
         if "ACloseable" in txt.split("from ._typing import", 1)[1].split("\n", 1)[1] and "ACloseable" not in txt.split("from ._typing import", 1)[1].split("\n", 1)[0]:
             txt = txt.replace("from ._typing import ", "from ._typing import ACloseable, ", 1)
             open(os.path.join(WT, f), "w").write(txt)
+    f = "asyncstdlib/asynctools.py"
+    txt = open(os.path.join(WT, f)).read()
+    if "ScopedIter(" in txt and "import aiter, ScopedIter" not in txt and "from ._core import aiter\n" in txt:
+        open(os.path.join(WT, f), "w").write(txt.replace("from ._core import aiter\n", "from ._core import aiter, ScopedIter\n", 1))
     diff = sh("git diff HEAD").stdout
     comp = sh("/venv/bin/python -m compileall -q asyncstdlib")
     tests = sh("/venv/bin/python -m pytest -q -p no:cacheprovider unittests 2>&1 | tail -1").stdout.strip()
